@@ -12,8 +12,8 @@ META = {
                    'second translate undoes the first, and source and destination row slices have the same length; R15.3 neither the function '
                    'nor its callbacks read transform, clip_stack or layer_stack; R15.4 copy_surface = copy_from_slice(src->dst), '
                    'blend_surface = build_blend_proc::<BlendRow>(blend)(src, dst), blend_surface_with_alpha = over_in_row(src, dst, alpha byte).',
-    'decides': ['R15.1 clamp chain and emptiness guard', 'R15.2 placement consistency of clipping and copying', 'R15.3 isolation from transform/clip/layers', 'R15.4 wrapper semantics'],
-    'does_not_decide': ['ranges of the index arithmetic (overflow, negative-to-usize)', 'blend values (sw-composite)'],
+    'decides': ['R15.1 clamp chain and emptiness guard', 'R15.2 placement consistency of clipping and copying', 'R15.3 isolation from transform/clip/layers', 'R15.4 wrapper semantics', 'R15.5 every checked integer operation of composite_surface has operands bounded by surface sizes, for all i32 src_rect / dst (no overflow)'],
+    'does_not_decide': ['products of the sizes themselves (width*height of a surface that does not fit i32)', 'blend values (sw-composite)'],
     'assumptions': ['euclid Box2D::translate/intersection_unchecked/is_empty (external)', 'sw_composite::over_in_row(src, dst, alpha) = per-pixel over_in (external)'],
     'trusted_base': ['euclid 0.22.14', 'sw-composite 0.7.16'],
 }
